@@ -83,6 +83,8 @@ namespace c18
     void make_clients_cdouble(std::vector<ClientBase*>&);
     void make_clients_pod24(std::vector<ClientBase*>&);
     void make_clients_pod4096(std::vector<ClientBase*>&);
+    void make_clients_over32(std::vector<ClientBase*>&);
+    void make_clients_over64(std::vector<ClientBase*>&);
     void make_clients_default(std::vector<ClientBase*>&);
 
     struct Pod24
@@ -92,5 +94,14 @@ namespace c18
     struct Pod4096
     {
         unsigned char b[4096];
+    };
+    // over-aligned element types (alignof(T) > alignof(max_align_t)), like __m256 / a batch or an alignas struct
+    struct alignas(32) Over32
+    {
+        unsigned char b[32];
+    };
+    struct alignas(64) Over64
+    {
+        unsigned char b[192];
     };
 }
